@@ -15,6 +15,7 @@ import (
 	"fmt"
 	"go/ast"
 	"go/token"
+	"go/types"
 	"strconv"
 )
 
@@ -310,4 +311,54 @@ func (g *gen) negTables() {
 		}
 		g.p("Definition ns_bidi_select : bytes := hex \"%s\". (* %s *)\n", hexOf([]byte(v)), v)
 	}
+	g.negStateWrites()
+}
+
+// negStateWrites lists every assignment (any operator) whose left-hand side is
+// a selector ending in `.state`, in the files that negotiate a session, as
+// (file, enclosing function, operator, right-hand side). The proofs state
+// which of them can clear a bit: a source edit that adds `s.state &^= X` or
+// `s.state = X` anywhere in these files breaks a table lemma.
+func (g *gen) negStateWrites() {
+	g.p("\n(* ---- every assignment to a session's state bits in session.go, features.go, negotiator.go:\n")
+	g.p("        (file, function, operator, right-hand side) ---- *)\n")
+	g.p("Definition state_writes : list (bytes * bytes * bytes * bytes) := [\n")
+	first := true
+	for _, rel := range []string{"session.go", "features.go", "negotiator.go"} {
+		f := g.parse(rel)
+		if f == nil {
+			continue
+		}
+		for _, d := range f.Decls {
+			fd, is := d.(*ast.FuncDecl)
+			if !is || fd.Body == nil {
+				continue
+			}
+			ast.Inspect(fd.Body, func(n ast.Node) bool {
+				as, is := n.(*ast.AssignStmt)
+				if !is {
+					return true
+				}
+				for i, l := range as.Lhs {
+					sel, is := l.(*ast.SelectorExpr)
+					if !is || sel.Sel.Name != "state" {
+						continue
+					}
+					rhs := ""
+					if i < len(as.Rhs) {
+						rhs = types.ExprString(as.Rhs[i])
+					}
+					if !first {
+						g.p(";\n")
+					}
+					first = false
+					g.p("  (hex \"%s\", hex \"%s\", hex \"%s\", hex \"%s\") (* %s %s: %s %s %s *)",
+						hexOf([]byte(rel)), hexOf([]byte(fd.Name.Name)), hexOf([]byte(as.Tok.String())), hexOf([]byte(rhs)),
+						rel, fd.Name.Name, types.ExprString(l), as.Tok.String(), rhs)
+				}
+				return true
+			})
+		}
+	}
+	g.p("\n].\n")
 }
